@@ -14,8 +14,8 @@
 using namespace sim;
 using namespace mpt;
 
-enum { OP_COUNTER, OP_TAKE, OP_DROP, OP_WRAP_ASSIGN, OP_REFARRAY_SET, OP_REFARRAY_CLONE, OP_REFARRAY_WRITE, OP_REFARRAY_RELEASE, OP_CXXREF, OP_LIB_TAKE, OP_LIB_DROP, OP_LIB_NEW, OP_BUF_CLONE, OP_MISMATCH_CLONE };
-static const char *const OPS[] = {"COUNTER", "TAKE", "DROP", "ASSIGN_BY_CONVERSION", "REFARRAY_SET", "REFARRAY_CLONE", "REFARRAY_WRITE", "REFARRAY_RELEASE", "CXX_REFERENCE", "LIB_TAKE", "LIB_DROP", "LIB_NEW", "BUFFER_CLONE", "MISMATCHED_CLONE", 0};
+enum { OP_COUNTER, OP_TAKE, OP_DROP, OP_WRAP_ASSIGN, OP_REFARRAY_SET, OP_REFARRAY_CLONE, OP_REFARRAY_WRITE, OP_REFARRAY_RELEASE, OP_CXXREF, OP_LIB_TAKE, OP_LIB_DROP, OP_LIB_NEW, OP_BUF_CLONE, OP_MISMATCH_CLONE, OP_CXX_REFARRAY, OP_CXX_ITEMS };
+static const char *const OPS[] = {"COUNTER", "TAKE", "DROP", "ASSIGN_BY_CONVERSION", "REFARRAY_SET", "REFARRAY_CLONE", "REFARRAY_WRITE", "REFARRAY_RELEASE", "CXX_REFERENCE", "LIB_TAKE", "LIB_DROP", "LIB_NEW", "BUFFER_CLONE", "MISMATCHED_CLONE", "CXX_REFERENCE_ARRAY", "CXX_ITEM_ARRAY", 0};
 enum { FL_NONE, FL_ALLOC, FL_REFUSE };
 static const char *const FAULTS[] = {"none", "allocfail", "refuse_addref", 0};
 
@@ -61,7 +61,7 @@ struct RefsWorld : World {
 		int nops = (int) r.range(1, tier ? 100 : 50);
 		bool allocf = r.chance(1, 3), refuse = r.chance(1, 2);
 		for (int i = 0; i < nops; ++i) {
-			Op op; op.kind = (int) r.below(14);
+			Op op; op.kind = (int) r.below(16);
 			op.a = r.below(3) | (r.below(3) << 8) | (r.below(4) << 16); // object, second object, holder slot
 			op.b = r.below(6); op.c = r.below(1000);
 			if (refuse && r.chance(1, 4)) op.fault = FL_REFUSE;
@@ -265,6 +265,51 @@ struct RefsWorld : World {
 				  if (shared_flag != (holders > 1)) fail("count-mismatch", "raw buffer with %ld holder(s) reports shared=%d after a refused assignment", holders, (int) shared_flag); }
 				{ long holders = (ra.buf == rb.buf) ? 2 : 1; bool shared_flag = (ra.buf->get_flags() & BufferShared) != 0;
 				  if (shared_flag != (holders > 1)) fail("count-mismatch", "reference array buffer with %ld holder(s) reports shared=%d after a refused assignment", holders, (int) shared_flag); }
+				outcome = 1;
+				break;
+			}
+			case OP_CXX_REFARRAY: case OP_CXX_ITEMS: {
+				// episode on a C++ array of references (reference_array) or of named references (item_array):
+				// the container owns one reference per non-empty entry and gives each back exactly once
+				long before[3]; for (int i = 0; i < 3; ++i) before[i] = alive(i) ? obj[i]->refs : -1;
+				uint32_t x = (uint32_t) op.c * 2654435761u + 99u;
+				bool items = op.kind == OP_CXX_ITEMS;
+				{
+					reference_array<metatype> *ra2 = 0; item_array<metatype> *ia = 0;
+					if (items) { Sut su; ia = new item_array<metatype>(); } else { Sut su; ra2 = new reference_array<metatype>(); }
+					long held[3] = {0, 0, 0};
+					for (int k = 0; k < 10; ++k) {
+						x = x * 1664525u + 1013904223u;
+						int o = (int) ((x >> 20) % 3); unsigned act = (x >> 12) % 6;
+						if (!alive(o) || model[o] != 1) continue;
+						if (act <= 2) {
+							// hand one reference to the container
+							uintptr_t r; { Sut su; r = obj[o]->addref(); }
+							if (!r) continue;
+							bool ok;
+							if (items) { char nm[8]; snprintf(nm, sizeof nm, "n%d", k); Sut su; ok = ia->append(obj[o], (x & 256) ? nm : 0) != 0; }
+							else { long n = ra2->length(); Sut su; ok = ra2->insert((long) (x % (uint32_t) (n + 1)), obj[o]); }
+							if (ok) { ++held[o]; st.hit(items ? "probe:item_array_entry_added" : "probe:reference_array_entry_added"); } else { Sut su; obj[o]->unref(); }
+						} else if (act == 3 && !items) {
+							long n; { Sut su; n = ra2->clear(obj[o]); }
+							if (n != held[o]) fail("count-mismatch", "reference_array clear(object %d) released %ld entries, %ld were held", o, n, held[o]);
+							held[o] = 0;
+						} else if (act == 4) {
+							long c; { Sut su; c = items ? ia->count() : ra2->count(); }
+							if (c != held[0] + held[1] + held[2]) fail("count-mismatch", "%s count() is %ld, %ld references are held", items ? "item_array" : "reference_array", c, held[0] + held[1] + held[2]);
+						} else {
+							if (items) { Sut su; ia->compact(); } else { Sut su; ra2->compact(); }
+						}
+						for (int i = 0; i < 3; ++i) if (before[i] >= 0 && alive(i) && obj[i]->refs != before[i] + held[i])
+							fail("count-mismatch", "object %d counts %ld references, %ld expected while a C++ %s holds %ld", i, obj[i]->refs, before[i] + held[i], items ? "item_array" : "reference_array", held[i]);
+						check_pending();
+					}
+					if (items) { Sut su; delete ia; } else { Sut su; delete ra2; }
+				}
+				check_pending();
+				for (int i = 0; i < 3; ++i) if (before[i] >= 0 && (!alive(i) || obj[i]->refs != before[i]))
+					fail(alive(i) && obj[i]->refs > before[i] ? "never-destroyed" : "destroyed-early", "after a C++ %s went away object %d counts %ld references, %ld before the episode", items ? "item_array" : "reference_array", i, alive(i) ? obj[i]->refs : 0, before[i]);
+				log.ev("%s episode", OPS[op.kind]);
 				outcome = 1;
 				break;
 			}
